@@ -214,7 +214,15 @@ func check(c Case) error {
 	defer os.Remove(p)
 	vk.StaleFile(p, 4*len(x.Sequence)+20000)
 	polyjson.Write(x, p)
-	return sameValue("polyjson.Read(polyjson.Write(x))", x, polyjson.Read(p))
+	if err := sameValue("polyjson.Read(polyjson.Write(x))", x, polyjson.Read(p)); err != nil {
+		return err
+	}
+	// the written file through the other reading entry point
+	b, err := os.ReadFile(p)
+	if err != nil {
+		return vk.Harnessf("cannot read back %s: %v", p, err)
+	}
+	return sameValue("polyjson.Parse(bytes of the file polyjson.Write wrote)", x, polyjson.Parse(b))
 }
 
 func depth(n insdc.Node) int {
